@@ -30,7 +30,8 @@ RULE = ("a case = session (commands + replies) x events (name, form, text, posit
         "x between-chunk listener operations x segmentation; distinct = hash of all of it; non-trivial = at least one event "
         "completed while at least one listener was registered for some name and the call log was compared")
 ASSUMPTIONS = [
-    "whether a listener removed by ANOTHER listener during a delivery still receives that event, and whether a listener added during a delivery receives it, is unspecified: either accepted",
+    "whether a listener removed by ANOTHER listener during a delivery still receives that event is unspecified: either accepted",
+    "a listener added during the delivery of an event was not registered when that event arrived, so it must not receive it ('and to nobody else'); it must receive later ones",
     "payload = text after the event name, further lines joined by newline; a trailing '\\nOK' on multi-line/data forms and the absence of the separator after a bare event name are tolerated",
     "order among the listeners of one event is not specified; order across events is arrival order",
     "events for names without listeners are sent by the scripted server although Tor would only do so in the unsubscribe window; they are judged only on 'nobody is called, replies unaffected'",
@@ -302,6 +303,9 @@ class Harness(ctl.Session):
                 self.problems.append(("payload-mismatch", icls, {"event": j, "got": got[0][1], "want": sorted(accept)[0]}))
         for lid, got in per.items():
             if lid in sn["added_during"]:
+                # it was not registered when the event arrived: "and to nobody else"
+                self.problems.append(("listener-added-during-delivery-received-that-event", icls,
+                                      {"event": j, "listener": lid, "payload": got[0][1]}))
                 continue
             self.problems.append(("unregistered-listener-called", icls,
                                   {"event": j, "event_name": e["name"], "listener": lid,
